@@ -142,11 +142,10 @@ def calendar_producers_rule(ctx, rule: str) -> None:
     ci = prog.function("v2version.cal_info")
     pf = prog.function("v2version.parse_field_values_to_cinfo")
     ctx.visit(ci.fq, pf.fq)
-    dicts = [n for n in ast.walk(ci.node) if isinstance(n, ast.Dict) and n.keys and all(isinstance(k, ast.Constant) for k in n.keys)]
-    ctx.require(len(dicts) == 1, "cal_info: field dict not found")
-    prod1: T.Dict[str, T.Optional[str]] = {}
-    for k, v in zip(dicts[0].keys, dicts[0].values):
-        prod1[k.value] = _directive(v, ci.params[0])
+    from sa.formats import field_table
+    tab1 = field_table(ci)
+    ctx.require(tab1 is not None, "cal_info: field dict not found")
+    prod1: T.Dict[str, T.Optional[str]] = {k: _directive(v, ci.params[0]) for k, v in tab1.items()}
     prod2: T.Dict[str, T.Optional[str]] = {}
     blocks = [n for n in walk_no_nested(pf.node) if isinstance(n, ast.If) and unparse(n.test) == "date"]
     ctx.require(len(blocks) == 1, "parse_field_values_to_cinfo: `if date:` derivation block not found")
@@ -161,7 +160,7 @@ def calendar_producers_rule(ctx, rule: str) -> None:
                   f"v2version: calendar field '{f}' is bound to different sources in cal_info ({a}) and the parser ({b}); expected %{d}",
                   f"cal_info: {a}, parser: {b}", loc=ci.loc(), witness={"field": f, "cal_info": a, "parser": b, "expected": d})
     two_digit_year_rule(ctx, rule)
-    q = dict(zip([k.value for k in dicts[0].keys], dicts[0].values)).get("quarter")
+    q = tab1.get("quarter")
     from sa import formats as _fm
     qt = _fm.month_table(prog, ci, q, ci.params[0]) if q is not None else None
     ctx.check(rule, qt == [1, 1, 1, 2, 2, 2, 3, 3, 3, 4, 4, 4], f"cal_info: quarter of month 1..12 is {qt}",
@@ -248,9 +247,8 @@ def run(ctx) -> None:
         ctx.bad("R2", "v2version.incr: the week-pattern guard is not called", "incoherent year/week pairings are rendered", loc=inc.loc(), what="incr calls is_valid_week_pattern")
     else:
         ctx.check("R2", [unparse(a) for a in gc[0].args] == ["raw_pattern"], "incr: is_valid_week_pattern(raw_pattern)", "v2version.incr: guard applied to another pattern", unparse(gc[0]), loc=inc.loc(gc[0]))
-        gn = icfg.node_containing(gc[0])
-        ctx.require(icfg.nodes[gn].kind == "test" and icfg.nodes[gn].ast is gc[0], "incr: guard call is not a branch test")
-        t_edges = icfg.edges_of_test(gn, "T")
+        t_edges = shapes.outcome_edges_of_call(icfg, inc, gc[0], True)
+        ctx.require(t_edges is not None, "incr: guard call is not a branch test")
         wo = icfg.reachable(blocked_edges=t_edges)
         fmt = shapes.find_calls(prog, inc, "v2version.format_version")
         ctx.floor("R2", "format_version calls in incr", len(fmt), 1)
@@ -275,8 +273,8 @@ def run(ctx) -> None:
         ctx.require(len(newp) == 1, "validator: no branch on is_new_pattern")
         # reached for every new pattern that passed the earlier checks: at least implied by is_new_pattern and not blocked by another condition on the pattern kind
         ctx.check("R2", r.implies(BF.var(newp[0])) and not r.is_false(), "validator: guard evaluated for new-style patterns", "config validator: guard evaluated for the wrong pattern kind", r.to_dnf(), loc=val.loc(vc[0]))
-        f_edges = vcfg.edges_of_test(vn, "F")
-        ctx.require(vcfg.nodes[vn].kind == "test", "validator: guard call is not a branch test")
+        f_edges = shapes.outcome_edges_of_call(vcfg, val, vc[0], False)
+        ctx.require(f_edges is not None, "validator: guard call is not a branch test")
         after_false = set()
         for (_s, d, _l) in f_edges:
             after_false |= vcfg.reachable(d)
